@@ -382,7 +382,7 @@ Definition rx_any : str -> bool := fun _ => true.
 Definition rx_none : str -> str -> option str := fun _ _ => None.
 Definition cx0 : ctx :=
   {| c_url := [117]; c_method := [103;101;116]; c_status := 200%Z;
-     c_query := Some [([97;46;98], JStr [118])]; c_path := None; c_headers := None;
+     c_query := Some [([97;46;98], PJ (JStr [118]))]; c_path := None; c_headers := None;
      c_body := VNotSet; r_headers := []; r_body := Some (JObj [([105;100], JInt 7); ([120;125;121], JInt 5)]) |}.
 
 Definition e_url_x : str := [36;117;114;108;46;120].                         (* $url.x *)
@@ -438,8 +438,9 @@ Lemma keep_sendable_in d n v : In (n, v) (keep_sendable d) -> v <> VUnres /\ v <
 Proof.
   induction d as [|[m x] d IH]; [intros []|]. cbn [keep_sendable].
   destruct (sendable x) as [w|] eqn:S; [|exact IH]. intros [H|H]; [|exact (IH H)]. inversion H. subst.
-  destruct x as [u|]; [|discriminate]. destruct u as [j| | |]; try discriminate; cbn in S.
+  destruct x as [u|]; [|discriminate]. destruct u as [j| | | |r]; try discriminate; cbn in S.
   - destruct j; inversion S; split; discriminate.
+  - inversion S. split; discriminate.
   - inversion S. split; discriminate.
   - inversion S. split; discriminate.
 Qed.
@@ -505,7 +506,7 @@ Proof.
   assert (Hn : new <> VUnres).
   { unfold body_ready in R. destruct xb as [[v|]|]; try discriminate. destruct (is_unres v) eqn:U; [discriminate|].
     inversion R. subst. intros ->. discriminate. }
-  destruct merge; [|exact Hn]. destruct g as [[]| | |]; try exact Hn. destruct new as [[]| | |]; try exact Hn. discriminate.
+  destruct merge; [|exact Hn]. destruct g as [[]| | | |?]; try exact Hn. destruct new as [[]| | | |?]; try exact Hn. discriminate.
 Qed.
 
 Lemma unresolved_body_is_generated merge g : final_body merge (body_ready (Some (XOk VUnres))) g = g
@@ -562,7 +563,7 @@ Proof.
   intros U. unfold body_ready. rewrite U. repeat split.
   - intros ->. reflexivity.
   - intros gm nm k w -> -> -> Hnd Hk. exists (assoc_update gm nm). split; [reflexivity|]. apply assoc_update_wins; assumption.
-  - intros -> H. cbn [final_body]. destruct g as [[]| | |]; try reflexivity. destruct new as [[]| | |]; try reflexivity.
+  - intros -> H. cbn [final_body]. destruct g as [[]| | | |?]; try reflexivity. destruct new as [[]| | | |?]; try reflexivity.
     exfalso. apply (H kvs kvs0). split; reflexivity.
 Qed.
 
@@ -793,9 +794,10 @@ Proof.
       |change (str_eqb s_path s_query) with false; change (str_eqb s_path s_path) with true; change (str_eqb s_path s_header) with false
       |change (str_eqb s_header s_query) with false; change (str_eqb s_header s_path) with false; change (str_eqb s_header s_header) with true];
       cbn iota;
-      match goal with |- match ?X with _ => _ end = _ => destruct X as [[]|]; try reflexivity; apply extract_agree end.
+      unfold source_param;
+      match goal with |- match ?X with _ => _ end = _ => destruct X as [[[]|]|]; try reflexivity; apply extract_agree end.
   - destruct p as [p|]; cbn [option_map eval_node denote denote_ptr].
-    + cbn [ptr_strict] in Hp. destruct (c_body cx) as [doc| | |]; try reflexivity.
+    + cbn [ptr_strict] in Hp. destruct (c_body cx) as [doc| | | |?]; try reflexivity.
       cbn [tl]. rewrite (pointer_rfc6901_partial _ _ Hp). destruct (rfc6901 doc p); reflexivity.
     + destruct (c_body cx); reflexivity.
   - cbn [eval_node denote]. destruct (assoc_get (lower_ascii name) (r_headers cx)) as [[|v vs]|]; try reflexivity. apply extract_agree.
@@ -817,7 +819,7 @@ Definition rx_ok1 : str -> bool := fun p => str_eqb p [40;46;41].     (* (.) *)
 Definition rx_ex1 : str -> str -> option str := fun _ s => match s with c :: _ => Some [c] | [] => None end.
 Definition cx1 : ctx :=
   {| c_url := [117]; c_method := [103;101;116]; c_status := 201%Z;
-     c_query := Some [([113], JStr [97;98])]; c_path := None; c_headers := None;
+     c_query := Some [([113], PJ (JStr [97;98]))]; c_path := None; c_headers := None;
      c_body := VNotSet; r_headers := []; r_body := Some (JObj [([97;47;98], JArr [JInt 4; JInt 5])]) |}.
 Example eval_denotes_nonvacuous :
   simple_expr rx_ok1 (RReq LQuery [113] (Some [40;46;41])) = true /\
@@ -892,7 +894,7 @@ Section NestedProof.
       apply andb_true_iff in Hkx. destruct Hkx as [Hk Hx'].
       cbn [existsb fold_left fst snd]. cbn [snd] in Hx.
       unfold key_ok, evk, ev in Hk. unfold evk, ev, leaf_key, evk, ev.
-      destruct (key_of (eval_str rx_ok rx_extract cx k)) as [[[| | |s| |]| | |]| |]; try discriminate Hk.
+      destruct (key_of (eval_str rx_ok rx_extract cx k)) as [[[| | |s| |]| | | |?]| |]; try discriminate Hk.
       + cbn [is_unres_o orb]. rewrite (Hx Hx'). destruct (HU x); [reflexivity|]. apply IH. exact Hl.
       + reflexivity.
   Qed.
@@ -901,7 +903,7 @@ Section NestedProof.
   Proof.
     induction e using json_ind'; unfold nested_spec; cbn [leaves_ok has_unres subst_nested]; intros Hok; try reflexivity.
     - cbn [eval_nested]. unfold value_ok, ev in Hok. unfold ev, leaf_value, ev.
-      destruct (eval_str rx_ok rx_extract cx s) as [[j| | |]| |]; try discriminate Hok; reflexivity.
+      destruct (eval_str rx_ok rx_extract cx s) as [[j| | | |?]| |]; try discriminate Hok; reflexivity.
     - cbn [eval_nested]. rewrite (nested_arr_go l H [] Hok). reflexivity.
     - cbn [eval_nested]. rewrite (nested_obj_go kvs H [] Hok). reflexivity.
   Qed.
@@ -928,3 +930,143 @@ Example nested_nonvacuous :
   leaves_ok rx_any rx_none cx1 nb_unres = true /\ has_unres rx_any rx_none cx1 nb_unres = true /\
   evaluate rx_any rx_none cx1 nb_unres true = OVal VUnres.
 Proof. repeat split; vm_compute; reflexivity. Qed.
+
+(* ---------- the VALUE domain of the source request (added after the seeded regression C10_c) ----------
+   $request.query / path / header .name without extractor: UNRESOLVABLE exactly when the request has no such parameter
+   (or it is null); every other value - 0, 0.0, the empty string, false, [], {} as much as a truthy one - is the value of the
+   expression, survives the filter of into_step_input and is the value the derived request carries. *)
+Lemma simple_req_plain rx_ok l name : name_ok name = true -> simple_expr rx_ok (RReq l name None) = true.
+Proof. intros Hn. cbn [simple_expr rx_region]. rewrite Hn. reflexivity. Qed.
+
+Lemma request_value_denotes rx_ok rx_extract cx l name v :
+  name_ok name = true -> source_param cx l name = Some v -> v <> PJ JNull ->
+  eval_str rx_ok rx_extract cx (print (RReq l name None)) = OVal (value_of_pval v) /\ value_of_pval v <> VUnres.
+Proof.
+  intros Hn Hs Hv.
+  rewrite (eval_denotes_partial rx_ok rx_extract cx _ (simple_req_plain rx_ok l name Hn) eq_refl).
+  cbn [denote]. rewrite Hs.
+  destruct v as [j|r]; [destruct j|]; cbn [value_of_pval denote_extract]; try (split; [reflexivity|discriminate]).
+  exfalso. apply Hv. reflexivity.
+Qed.
+
+Lemma request_value_unresolvable_iff rx_ok rx_extract cx l name :
+  name_ok name = true ->
+  (eval_str rx_ok rx_extract cx (print (RReq l name None)) = OVal VUnres
+   <-> (source_param cx l name = None \/ source_param cx l name = Some (PJ JNull))).
+Proof.
+  intros Hn. split.
+  - intros He. destruct (source_param cx l name) as [v|] eqn:Hs; [|left; reflexivity].
+    destruct v as [j|r]; [destruct j|]; try (right; reflexivity);
+      match type of Hs with _ = Some ?V =>
+        assert (Hv : V <> PJ JNull) by discriminate;
+        destruct (request_value_denotes rx_ok rx_extract cx l name V Hn Hs Hv) as [E U];
+        rewrite E in He; inversion He as [He']; exfalso; apply U; exact He' end.
+  - intros H.
+    rewrite (eval_denotes_partial rx_ok rx_extract cx _ (simple_req_plain rx_ok l name Hn) eq_refl).
+    cbn [denote]. destruct H as [-> | ->]; reflexivity.
+Qed.
+
+(* with an extractor the absent / null parameter is UNRESOLVABLE as well, whatever the pattern *)
+Lemma absent_request_value_unresolvable rx_ok rx_extract cx l name rx :
+  name_ok name = true -> rx_region rx_ok rx = true ->
+  (source_param cx l name = None \/ source_param cx l name = Some (PJ JNull)) ->
+  eval_str rx_ok rx_extract cx (print (RReq l name rx)) = OVal VUnres.
+Proof.
+  intros Hn Hr H.
+  assert (Hs : simple_expr rx_ok (RReq l name rx) = true) by (cbn [simple_expr]; rewrite Hn, Hr; reflexivity).
+  rewrite (eval_denotes_partial rx_ok rx_extract cx _ Hs eq_refl). cbn [denote]. destruct H as [-> | ->]; reflexivity.
+Qed.
+
+(* where the code DOES look at truthiness: extract(value) or UNRESOLVABLE - a group that matched the empty string counts as no match *)
+Lemma extractor_empty_group_unresolvable rx_extract pat s :
+  rx_extract pat s = Some [] -> apply_extractor rx_extract (Some pat) (JStr s) = OVal VUnres.
+Proof. intros H. cbn [apply_extractor]. rewrite H. reflexivity. Qed.
+
+(* a template none of whose parts is UNRESOLVABLE is not UNRESOLVABLE: falsy parts do not poison it *)
+Lemma combine_resolvable vs : existsb is_unres vs = false -> combine vs <> VUnres.
+Proof.
+  intros H. destruct vs as [|v [|w r]].
+  - cbn. discriminate.
+  - cbn [combine]. cbn [existsb] in H. rewrite orb_false_r in H. destruct v; try discriminate.
+  - unfold combine. rewrite H. destruct (join_parts (v :: w :: r)); discriminate.
+Qed.
+
+Lemma assoc_get_map_snd {A B} (f : A -> B) c (e : list (str * A)) :
+  assoc_get c (map (fun cd => (fst cd, f (snd cd))) e) = option_map f (assoc_get c e).
+Proof.
+  induction e as [|[k a] e IH]; [reflexivity|]. cbn [map assoc_get fst snd]. destruct (str_eqb c k); [reflexivity|exact IH].
+Qed.
+
+Lemma keep_sendable_set n x v inner : sendable x = Some v -> assoc_get n (keep_sendable (assoc_set n x inner)) = Some v.
+Proof.
+  intros Hx. induction inner as [|[k y] inner IH]; cbn [assoc_set].
+  - cbn [keep_sendable]. rewrite Hx. cbn [assoc_get]. rewrite str_eqb_refl. reflexivity.
+  - destruct (str_eqb n k) eqn:E.
+    + cbn [keep_sendable]. rewrite Hx. cbn [assoc_get]. rewrite str_eqb_refl. reflexivity.
+    + cbn [keep_sendable]. destruct (sendable y); [cbn [assoc_get]; rewrite E|]; exact IH.
+Qed.
+
+Lemma extract_parameters_last rx_ok rx_extract cx ps p mb mm :
+  extract_parameters rx_ok rx_extract cx {| l_params := ps ++ [p]; l_body := mb; l_merge := mm |} =
+  set_extracted (lp_container p) (lp_name p) (to_xval (evaluate rx_ok rx_extract cx (lp_expr p) false))
+                (extract_parameters rx_ok rx_extract cx {| l_params := ps; l_body := mb; l_merge := mm |}).
+Proof. unfold extract_parameters. cbn [l_params]. rewrite fold_left_app. reflexivity. Qed.
+
+Definition plain_param (c n : str) (loc : ploc) (name : str) : lparam :=
+  {| lp_container := c; lp_name := n; lp_expr := JStr (print (RReq loc name None)) |}.
+
+(* end to end: the (last) link parameter  c.n: $request.<loc>.<name>  puts exactly the value of the source request, falsy or
+   not, into container c of the derived case - provided the generator honours exclude *)
+Lemma link_carries_source_value rx_ok rx_extract cx loc name c n v gen ps mb mm :
+  name_ok name = true -> source_param cx loc name = Some v -> v <> PJ JNull ->
+  (forall excl g, In n excl -> gen excl = Some g -> assoc_get n g = None) ->
+  exists f,
+    final_container (kwargs_of (extract_parameters rx_ok rx_extract cx
+                       {| l_params := ps ++ [plain_param c n loc name]; l_body := mb; l_merge := mm |})) c gen = Some f
+    /\ assoc_get n f = Some (value_of_pval v) /\ value_of_pval v <> VUnres.
+Proof.
+  intros Hn Hs Hv Hg.
+  destruct (request_value_denotes rx_ok rx_extract cx loc name v Hn Hs Hv) as [He Hu].
+  assert (Hsend : sendable (XOk (value_of_pval v)) = Some (value_of_pval v)).
+  { destruct v as [j|r]; [destruct j|]; try reflexivity. exfalso. apply Hv. reflexivity. }
+  rewrite extract_parameters_last. unfold plain_param. cbn [lp_container lp_name lp_expr evaluate]. rewrite He. cbn [to_xval].
+  set (e0 := extract_parameters rx_ok rx_extract cx {| l_params := ps; l_body := mb; l_merge := mm |}).
+  unfold set_extracted. set (inner := match assoc_get c e0 with Some d => d | None => [] end).
+  set (d := keep_sendable (assoc_set n (XOk (value_of_pval v)) inner)).
+  assert (Hd : assoc_get n d = Some (value_of_pval v)) by (apply keep_sendable_set; exact Hsend).
+  destruct (link_values_override_generated
+              (kwargs_of (assoc_set c (assoc_set n (XOk (value_of_pval v)) inner) e0)) c d n (value_of_pval v) gen) as [f [F1 F2]].
+  - unfold kwargs_of. rewrite assoc_get_map_snd, assoc_get_set_same. reflexivity.
+  - exact Hd.
+  - intros g G. apply (Hg _ _ (in_map fst _ _ (assoc_get_in _ _ _ Hd)) G).
+  - exists f. split; [exact F1|]. split; [exact F2|exact Hu].
+Qed.
+
+(* non-vacuity: every JSON falsy value and a float zero, under query / path / header names; null and an absent name *)
+Definition cx_falsy : ctx :=
+  {| c_url := [117]; c_method := [112;111;115;116]; c_status := 201%Z;
+     c_query := Some [([122], PJ (JInt 0)); ([101], PJ (JStr [])); ([102], PJ (JBool false)); ([97], PJ (JArr []));
+                      ([111], PJ (JObj [])); ([120], PFloat [48;46;48]); ([110], PJ JNull); ([116], PJ (JInt 7))];
+     c_path := Some [([112], PJ (JInt 0))];
+     c_headers := Some [([88;45;69], PJ (JStr []))];
+     c_body := VNotSet; r_headers := []; r_body := None |}.
+
+Example falsy_values_nonvacuous :
+  forallb (fun kv => py_falsy (snd kv)) [([122], PJ (JInt 0)); ([101], PJ (JStr [])); ([102], PJ (JBool false)); ([97], PJ (JArr []));
+                                         ([111], PJ (JObj [])); ([120], PFloat [48;46;48])] = true /\
+  map (fun k => eval_str rx_any rx_none cx_falsy (print (RReq LQuery k None))) [[122]; [101]; [102]; [97]; [111]; [120]; [110]; [109]; [116]]
+  = [OVal (VJ (JInt 0)); OVal (VJ (JStr [])); OVal (VJ (JBool false)); OVal (VJ (JArr [])); OVal (VJ (JObj []));
+     OVal (VFloat [48;46;48]); OVal VUnres; OVal VUnres; OVal (VJ (JInt 7))] /\
+  eval_str rx_any rx_none cx_falsy (print (RReq LPath [112] None)) = OVal (VJ (JInt 0)) /\
+  eval_str rx_any rx_none cx_falsy (print (RReq LHeader [120;45;101] None)) = OVal (VJ (JStr [])) /\
+  (* in a template: a-{$request.query.z} is a-0, a-{$request.query.e} is a-, a-{$request.query.n} (null) is a- too,
+     a-{$request.query.m} (absent) is UNRESOLVABLE *)
+  map (fun k => eval_str rx_any rx_none cx_falsy (print_tpl [TText [97;45]; TEmb (RReq LQuery k None)])) [[122]; [101]; [102]; [120]; [109]]
+  = [OVal (VJ (JStr [97;45;48])); OVal (VJ (JStr [97;45])); OVal (VJ (JStr [97;45;70;97;108;115;101]));
+     OVal (VJ (JStr [97;45;48;46;48])); OVal VUnres] /\
+  (* through a link: query.tq of the derived case is the 0 of the source request although the generator offers a value *)
+  (exists f, final_container (kwargs_of (extract_parameters rx_any rx_none cx_falsy
+               {| l_params := [plain_param s_query [116;113] LQuery [122]]; l_body := None; l_merge := true |})) s_query
+               (fun excl => Some (filter (fun kv => negb (in_strs (fst kv) excl)) [([116;113], VJ (JStr [71;69;78]))])) = Some f
+             /\ assoc_get [116;113] f = Some (VJ (JInt 0))).
+Proof. repeat split; try (vm_compute; reflexivity). eexists. split; vm_compute; reflexivity. Qed.
